@@ -56,6 +56,10 @@ const DATE_FORMS: &[DateForm] = &[
     DateForm { fmt: "%Y %_W %u", dom: Dom::Any, letters: false },
     DateForm { fmt: "%C%y %m %d", dom: Dom::FourDigit, letters: false },
     DateForm { fmt: "%C %y-%m-%d", dom: Dom::FourDigit, letters: false },
+    DateForm { fmt: "%C%y %j", dom: Dom::FourDigit, letters: false },
+    DateForm { fmt: "%C%y %U %w", dom: Dom::FourDigit, letters: false },
+    DateForm { fmt: "%C%y-W%W-%u", dom: Dom::FourDigit, letters: true },
+    DateForm { fmt: "%-C %-y %-j", dom: Dom::FourDigit, letters: false },
     DateForm { fmt: "%d %b %Y", dom: Dom::Any, letters: false },
     DateForm { fmt: "%-d %h %Y", dom: Dom::Any, letters: false },
     DateForm { fmt: "%A %e %B %Y", dom: Dom::Any, letters: false },
@@ -346,7 +350,7 @@ fn main() {
         property: "C13",
         classes: CLASSES,
         required: &["roundtrip", "signed_year", "five_digit_year", "leap_second", "truncated_precision", "twelve_hour", "case_perturbed", "ws_perturbed", "pivot_year", "timestamp_form", "negative_timestamp", "permissive_offset"],
-        rule: "format family = 31 date forms (calendar, ordinal, ISO week, Sunday/Monday week, century+year, names, composites, every padding modifier) x 21 time forms (24 h / 12 h, composites, every fraction form, fixed-width without separators) x separators {space, T} x offset forms {%z, %:z, %#z fed with %z/%:::z output} plus %c, %+, %s forms; every date form on all boundary dates within the value range the statement grants it (two-digit years only 1970..=2069, %C%y only 0..=9999), every time form on all boundary times incl. :60, every date x time combination on the small date set x offsets; parse(format(v)) must return v at the printed precision; the text is also perturbed: names in upper / lower / alternating case (only where the format has no literal letters), every space doubled / replaced by a tab / by space-newline-space; non-trivial = signed or 5-6 digit year, leap second, truncated precision, perturbed text, negative timestamp",
+        rule: "format family = 35 date forms (calendar, ordinal, ISO week, Sunday/Monday week, century+year, names, composites, every padding modifier) x 21 time forms (24 h / 12 h, composites, every fraction form, fixed-width without separators) x separators {space, T} x offset forms {%z, %:z, %#z fed with %z/%:::z output} plus %c, %+, %s forms; every date form on all boundary dates within the value range the statement grants it (two-digit years only 1970..=2069, %C%y only 0..=9999), every time form on all boundary times incl. :60, every date x time combination on the small date set x offsets; parse(format(v)) must return v at the printed precision; the text is also perturbed: names in upper / lower / alternating case (only where the format has no literal letters), every space doubled / replaced by a tab / by space-newline-space; non-trivial = signed or 5-6 digit year, leap second, truncated precision, perturbed text, negative timestamp",
         assumptions: &["%::z, %:::z and %Z are print-only, %#z is read-only (statement)", "a leap second cannot survive %s", "formats with literal letters are not case-perturbed (a lower-cased literal is not a name perturbation)"],
     };
     let tier = args.tier;
